@@ -69,7 +69,7 @@ pub fn install_panic_hook() {
             .map(|l| {
                 // strip absolute prefix so signatures are stable across checkouts
                 let f = l.file();
-                let f = f.strip_prefix("/repo/").unwrap_or(f);
+                let f = f.find("/repo/").map(|i| &f[i + 6..]).unwrap_or(f);
                 format!("{}:{}", f, l.line())
             })
             .unwrap_or_else(|| "?".into());
